@@ -15,14 +15,14 @@ from phylib.io.alf import EphysAlfCreator  # noqa: E402
 
 ID = 'C13'
 LEVEL = 'exploration'
-LABELS = ['', 'probe00', 'a_b']
+LABELS = ['', 'probe00', 'a_b', 'amps', 'templates']
 RULE = (
     "Hypothesis dense-template datasets with amplitudes: with/without raw data (flat 1-3 files, "
     "npy, cbin), with/without pc features (full row set) and template features, curated clusters "
     "with and without emptied ids or un-curated with unused template ids anywhere, probe table, "
     "shanks, whitening, optional files of the rename table (cluster_KSLabel.tsv, "
     "channel_labels.npy, cluster_shanks.npy stored (n,1)), (n,) and (n,1) vectors, a temp_wh.dat "
-    "present or not; labels {'', 'probe00', 'a_b'}; unit factors {1, 2, 2.5, 1e-6}; ids < 65536. "
+    "present or not; labels {'', 'probe00', 'a_b', 'amps', 'templates'} (the last two coincide with a part of some output file name); unit factors {1, 2, 2.5, 1e-6}; ids < 65536. "
     "Oracle: file-set predicate (first dimension of every spikes.* / clusters.* / templates.* / "
     "channels.* file == n_spikes / n_clusters / n_templates / n_channels; clusters.uuids: header "
     "+ n_clusters distinct parseable UUIDs; n_clusters = max id + 1 when curated, n_templates "
@@ -44,6 +44,10 @@ FAMILIES = ('spikes.', 'clusters.', 'templates.', 'channels.')
 def _case(draw):
     spec = draw(D.dataset_spec(dense=True, naming='ks', amplitudes=True, full_feature_rows=True,
                                max_nc=10, clusters_file=True))
+    if spec['raw'] is None and spec['time_dtype'] in ('uint64', 'int64') and draw(st.booleans()):
+        # a long recording: sample indices beyond 2**32 (about 40 h at 30 kHz)
+        spec['samples'] = [s_ + 2 ** 32 + 5 for s_ in spec['samples']]
+        spec['n_raw'] = spec['n_raw'] + 2 ** 32 + 5
     if spec['raw'] and spec['raw']['backend'] == 'cbin':
         # keep <= 20 chunks so that the 20-chunk sub-selection keeps every spike
         spec['raw']['chunk'] = max(spec['raw']['chunk'], int(ceil(spec['n_raw'] / 18.0)))
@@ -292,4 +296,6 @@ def classify(case, info):
         labels.append('re-export-into-same-directory')
     if max(s['spike_templates']) < s['nt'] - 1:
         labels.append('highest-template-unused')
+    if s['samples'][-1] >= 2 ** 32:
+        labels.append('samples-beyond-2**32')
     return labels, nt
